@@ -2,11 +2,13 @@
    Directives used: those of ExtrOcamlBasic only (bool, option, unit, list, prod, sumbool,
    sumor as OCaml types; andb/orb inlined). nat, N, Z, positive stay the extracted inductives. *)
 Require Import ExtrOcamlBasic.
-From Larking Require Import Base.GoSem Base.Reader Base.Varint Spec.Frames Model.Codec Model.Timeout.
+From Larking Require Import Base.GoSem Base.Reader Base.Varint Spec.Frames Model.Codec Model.Timeout Base.Pct Base.B64 Model.Status.
 Extraction Language OCaml.
 Set Extraction KeepSingleton.
 Separate Extraction
   GoSem.bytes_eqb N.of_nat N.to_nat Z.of_nat Z.to_nat Z.of_N N.add N.mul Z.add Z.mul Z.opp Z.eqb N.eqb Nat.eqb
   Frames.obs_ok Frames.parse_all Frames.parse
   Codec.read_next Codec.recv_all Codec.write_next
-  Timeout.decode_timeout Timeout.timeout_obs_ok.
+  Timeout.decode_timeout Timeout.timeout_obs_ok
+  Pct.pct_encode Pct.pct_decode B64.b64_encode B64.b64_decode
+  Status.http_status_code Status.ws_status_code Status.twirp_name Status.web_body_frames Status.frame Status.ws_reason.
